@@ -188,6 +188,12 @@ def rand_leaf(rs, v, kinds, ncat=None):
         n = rs.randint(2, 5) if ncat is None else ncat
         p = rs.dirichlet(np.ones(n))
         return Categorical(int(v), list(range(n)), p.tolist())
+    if k == 'catl':
+        # labels are a permuted subset of 0..5 (the table is stored in label-list order, not value order)
+        n = rs.randint(2, 5) if ncat is None else ncat
+        labels = [int(t) for t in rs.permutation(6)[:n]]
+        p = rs.dirichlet(np.ones(n))
+        return Categorical(int(v), labels, p.tolist())
     if k == 'gauss':
         return Gaussian(int(v), float(rs.randn()), float(rs.uniform(0.3, 2)))
     if k == 'unif':
